@@ -14,21 +14,31 @@
        place, ((lambda (x ...) body) e ...) = what `let` expands to, parameters read from the
        activation environment, calls in tail (TCALL) and non-tail (CALL) position, with the
        frame conditions (Proofs/CompileCorrect2.v) — C01_fragment2_correct, C01_eval_fragment2;
+     * the same for the fragment extended with CLOSURES AS VALUES: lambda expressions in any
+       expression position, inner lambdas capturing variables of enclosing lambdas (captured
+       slots are pointers to the slot of the activation environment that owns the variable),
+       application of an operator that evaluates to a closure (CALL and TCALL), named procedures
+       by (define f (lambda ...)) called by name from later expressions, recursion through the
+       global — by induction on the reference derivation (Proofs/Closures3.v, CompileStatic3.v,
+       CompileCorrect3.v, EvalFragment3.v) — C01_fragment3_static, C01_fragment3_correct,
+       C01_eval_fragment3;
      * the final conversion of the value at HALT (Heap::get_as_cell, whose fuel is an artefact
        of the model): monotone in the fuel, correct whenever the fuel does not run out, and a
        counterexample to "heap size + 1 suffices" (Proofs/CellFuelProofs.v);
    together with the scoping theorems of C02, the frame theorems of C04, the
    continuation theorems of C05 and the run-loop theorems of C07/C13.
    OPEN: the semantic compile-correctness theorem for the whole language
-   (C01_compile_correct_stmt): closures that capture variables or escape, `set!` on a local,
-   named procedures ((define (f x) ...)), internal definitions, variadic lambdas, quasiquote,
+   (C01_compile_correct_stmt): `set!` on a local variable, the (define (f x) ...) spelling,
+   internal definitions, bodies of several expressions, variadic lambdas, quasiquote,
    define-syntax and the derived forms of the prelude are outside the proved fragments. The
    reference semantics used as the spec oracle by the check is lib/scheme_ref.py.  *)
 From Coq Require Import String.
 From MW Require Import Model.Base Model.Datum Model.VmTypes Model.Heap Model.VmBase Model.Compile Model.Vm
   Model.Builtins Model.WireVm Proofs.CompileProofs Proofs.RunProofs Proofs.CompileCorrect
   Proofs.QuoteHeapProofs Proofs.TailProofs Proofs.FrameSteps Proofs.CellFuelProofs Proofs.CompileCorrect2
-  Proofs.FreeSymProofs.
+  Proofs.FreeSymProofs Proofs.FrameSteps3 Proofs.Closures3 Proofs.CompileCorrect3 Proofs.CompileStatic3
+  Proofs.EvalFragment3.
+From MW Require Import Model.Gc Proofs.SymtabProofs.
 Open Scope N_scope.
 
 (* operands strictly left to right, each compiled as a non-tail expression and
@@ -385,14 +395,180 @@ Example C01_fragment2_example_tail_run :
   end.
 Proof. vm_compute. repeat split. Qed.
 
+(* ---------------------------------------------------------------------------------
+   The fragment extended with CLOSURES AS VALUES (Proofs/Closures3.v):
+     e ::= ... | (lambda (x1 ... xn) body)   in ANY position; body: one expression of the fragment
+             | (e0 e1 ... en)                e0 evaluates to a builtin or to a CLOSURE
+   An inner lambda may mention the variables of the enclosing lambdas: they are CAPTURED.  A
+   variable is a parameter of an enclosing lambda or a global; define / set! act on globals
+   (local variables are immutable in this fragment), so (define f (lambda ...)) names a
+   procedure, later expressions call it by name, and it may call itself through its global.
+   [YLam ps fs body] carries the compiler's free-symbol list fs as an annotation; [wf3] demands
+   `free_symbols (lambda form) = Ok fs` and that fs covers every variable of the body that the
+   enclosing scope binds.  Values [rval3]: data, builtins, closures (parameters, captured names,
+   body, captured values).  [ref_eval3 sc lv rho e r rho']: sc / lv = the names / values the
+   environment of the running lambda binds (parameters, then captured variables).
+   As marwood compiles it: the environment map of a lambda = its parameters, then the free
+   symbols of the lambda expression that the enclosing map binds ([hdr3]); CLOSURE builds the
+   closure environment (captured slots = pointers (environment address, slot) to the slot of the
+   activation environment that owns the variable; an existing pointer is copied: at most one
+   indirection); ENTER copies arguments and pointers into a new activation environment; a
+   variable reference is MOV (lexical slot i) which follows at most one pointer.
+   [vrep3 m v r]: for a closure, v points to a VClosure cell whose lambda holds ENTER; the code
+   compile_expression emitted for the body in tail position; RET, and whose environment's
+   captured slots point to slots holding representations of the captured values. *)
+
+(* compile time: compile_expression succeeds on every well-formed expression, under every header
+   binding the scope sc, and leaves the lexical-environment table alone *)
+Theorem C01_fragment3_static : forall e sc, wf3 e sc ->
+  forall f l tail s, (cell_size (cell_of3 e) < f)%nat -> hdr3 l sc s -> minv s ->
+  exists l' s' code, compile_expression f l tail (cell_of3 e) s = ROk l' s' /\
+    fwd l' = fwd l ++ code /\ same_hdr l l' /\ minv s' /\ cext s s' /\ same_regs s s' /\
+    envs (st s') = envs (st s).
+Proof. exact static3. Qed.
+Print Assumptions C01_fragment3_static.
+
+(* run time, by induction on the REFERENCE DERIVATION (closures make induction over the
+   expression insufficient: the body that runs at a call is not a subterm of the call): for every
+   derivation `ref_eval3 sc lv rho e r rho'` and every compilation of e (any lambda under
+   construction whose environment map binds sc, any tail flag, any sufficient fuel, any state
+   with minv) that produced `code`: on every later machine m that holds code at
+   [p, p + len code) of the lambda at lp, with ip = (lp, p), globals agreeing with rho [genv_rel3],
+   the environment %ep points to holding lv directly or through one pointer [lrel3], and — for
+   tail code — a frame below sp [tframe]: finitely many instructions lead to ip = (lp, p + len code)
+   with a representation of r in %acc, globals agreeing with rho', sp / bp / ep / output log / the
+   stack up to sp / all existing environments unchanged; or, only for tail code, to the state the
+   RET of the current frame produces (a TCALL re-used the frame and the callee returned from it). *)
+Theorem C01_fragment3_correct :
+  forall (ob : N -> M vcell) (bsem : N -> list rval -> option rval),
+  (forall b, builtin_ok ob bsem b) -> (forall b, builtin_envs ob bsem b) ->
+  forall sc lv rho e r rho', ref_eval3 bsem sc lv rho e r rho' ->
+  forall f l tail s l' s' code, wf3 e sc -> (cell_size (cell_of3 e) < f)%nat -> hdr3 l sc s -> minv s ->
+    compile_expression f l tail (cell_of3 e) s = ROk l' s' -> fwd l' = fwd l ++ code ->
+    forall m lp bc,
+      cext s' m -> minv m -> code_in m lp bc -> seg bc (len (fwd l)) code -> ip m = (lp, len (fwd l)) ->
+      genv_rel3 rho m -> lrel3 lv m -> (tail = true -> tframe m) ->
+      ok_n3 ob m lp (len (fwd l) + len code) r rho' \/ (tail = true /\ ok_t3 ob m r rho').
+Proof. exact compile_correct3. Qed.
+Print Assumptions C01_fragment3_correct.
+
+(* the two outcomes, spelled out *)
+Theorem C01_ok_n3_unfold : forall ob m lp q r rho', ok_n3 ob m lp q r rho' <->
+  exists n m', steps ob n m = Some m' /\ frame2 m m' /\ minv m' /\ ip m' = (lp, q) /\
+    vrep3 m' (acc m') r /\ genv_rel3 rho' m'.
+Proof. intros; reflexivity. Qed.
+Print Assumptions C01_ok_n3_unfold.
+Theorem C01_ok_t3_unfold : forall ob m r rho', ok_t3 ob m r rho' <->
+  exists n m' k e i b, steps ob n m = Some m' /\ frame_at m k e i b /\ rext m m' /\ minv m' /\
+    vrep3 m' (acc m') r /\ genv_rel3 rho' m' /\
+    sp m' = bp m - k /\ ep m' = e /\ ip m' = i /\ bp m' = b /\ out_log m' = out_log m /\
+    (forall j, j <= bp m - k -> sget m' j = sget m j).
+Proof. intros; reflexivity. Qed.
+Print Assumptions C01_ok_t3_unfold.
+
+(* the representation of a closure value, spelled out *)
+Theorem C01_vrep3_closure_unfold : forall m v ps cs body cvals, vrep3 m v (R3Clo ps cs body cvals) <->
+  exists cp lamp cep ceid cslots, v = VPtr cp /\
+    allocated (hp m) cp /\ cell_at (hp m) cp = VClosure lamp cep /\
+    allocated (hp m) cep /\ cell_at (hp m) cep = VLexEnv ceid /\ ceid < next_id (st m) /\
+    tget (envs (st m)) ceid = Some cslots /\ len cslots = len ps + len cs /\
+    length cvals = length cs /\ closure_code m lamp ps cs body /\
+    all_idx (fun i cv => exists v', list_get cslots i = Some v' /\ ptr_slot m v' (fun w => vrep3 m w cv))
+            cvals (len ps).
+Proof. intros; reflexivity. Qed.
+Print Assumptions C01_vrep3_closure_unfold.
+
+(* Vm::eval on a top-level expression of the closure fragment: for every sufficient fuel the
+   evaluation is the HALT exit of a machine whose %acc represents the reference value (possibly a
+   closure), whose globals agree with rho', with the registers of the start *)
+Theorem C01_eval_fragment3 :
+  forall (ob : N -> M vcell) (bsem : N -> list rval -> option rval),
+  (forall b, builtin_ok ob bsem b) -> (forall b, builtin_envs ob bsem b) ->
+  forall e rho r rho' s,
+  wf3 e [] -> ref_eval3 bsem [] [] rho e r rho' -> minv s -> genv_rel3 rho s ->
+  transform_expr TRANSFORM_FUEL s (cell_of3 e) = Ok (cell_of3 e) ->
+  exists n m, (forall fuel, (n <= fuel)%nat -> eval ob fuel (cell_of3 e) s = halt_result m) /\
+    vrep3 m (acc m) r /\ genv_rel3 rho' m /\ minv m /\ cext s m /\
+    sp m = sp s /\ bp m = bp s /\ ep m = ep s /\ out_log m = out_log s.
+Proof. exact eval_fragment3. Qed.
+Print Assumptions C01_eval_fragment3.
+
+(* ... with `Done (rcell b)` when the reference value is a datum or a builtin (R1 premise) *)
+Theorem C01_eval_fragment3_done :
+  forall (ob : N -> M vcell) (bsem : N -> list rval -> option rval),
+  (forall b, builtin_ok ob bsem b) -> (forall b, builtin_envs ob bsem b) ->
+  forall e rho b rho' s,
+  wf3 e [] -> ref_eval3 bsem [] [] rho e (R3Base b) rho' -> minv s -> genv_rel3 rho s ->
+  transform_expr TRANSFORM_FUEL s (cell_of3 e) = Ok (cell_of3 e) ->
+  exists n m,
+    vrep (acc m) b (hp m) (st m) /\ genv_rel3 rho' m /\ minv m /\ cext s m /\
+    sp m = sp s /\ bp m = bp s /\ ep m = ep s /\ out_log m = out_log s /\
+    (forall fuel, (n <= fuel)%nat -> eval ob fuel (cell_of3 e) s = halt_result m) /\
+    (halt_result m <> RNoFuel \/ (no_ptr_cells (hp m) /\ (rcost b <= cell_fuel m)%nat) ->
+     forall fuel, (n <= fuel)%nat ->
+       eval ob fuel (cell_of3 e) s = ROk (Done (rcell b)) (with_stack m tempty (sp m))).
+Proof. exact eval_fragment3_done. Qed.
+Print Assumptions C01_eval_fragment3_done.
+
+(* sessions compose: the state a `Done` evaluation returns (the stack wiped) satisfies the
+   hypotheses of the next evaluation with the global environment the first one left *)
+Theorem C01_done_state_ok : forall rho m, minv m -> genv_rel3 rho m ->
+  minv (with_stack m tempty (sp m)) /\ genv_rel3 rho (with_stack m tempty (sp m)).
+Proof. exact done_state_ok. Qed.
+Print Assumptions C01_done_state_ok.
+
+(* non-vacuity: (((lambda (x) (lambda (y) (if y x 'no))) '(1 2)) #t) — the inner closure captures
+   x, ESCAPES from the activation that created it and is applied afterwards — satisfies the
+   hypotheses on the empty machine and has the reference value (1 2) ... *)
+Example C01_fragment3_example :
+  wf3 ex4_e [] /\ minv (vm_empty 8192) /\ genv_rel3 rho3_empty (vm_empty 8192) /\
+  ref_eval3 bsem_not [] [] rho3_empty ex4_e (R3Base (RDatum ex2_list)) rho3_empty.
+Proof. exact ex4_hypotheses. Qed.
+(* ... and the model evaluates it to (1 2) with the registers of the start *)
+Example C01_fragment3_example_run :
+  transform_expr TRANSFORM_FUEL (vm_empty 8192) (cell_of3 ex4_e) = Ok (cell_of3 ex4_e) /\
+  match eval other_builtin 200 (cell_of3 ex4_e) (vm_empty 8192) with
+  | ROk (Done c) s' => c = ex2_list /\ sp s' = 0 /\ bp s' = 0 /\ ep s' = USIZE_MAX
+  | _ => False
+  end.
+Proof. vm_compute. repeat split. Qed.
+(* a session of two forms: (define loop (lambda (x) (if x (loop #f) 'done))) then (loop #t) — a
+   named procedure called by name from a later expression, recursive through its global, every
+   call of the second form a tail call: reference values #<void> and done ... *)
+Example C01_fragment3_session :
+  wf3 ex5_def [] /\ wf3 ex5_call [] /\
+  ref_eval3 bsem_not [] [] rho3_empty ex5_def (R3Base (RDatum CVoid)) ex5_rho /\
+  ref_eval3 bsem_not [] [] ex5_rho ex5_call (R3Base (RDatum (CSym (S_ "done")))) ex5_rho.
+Proof. exact ex5_hypotheses. Qed.
+(* ... and the model, run on the two forms in sequence, answers #<void> and done *)
+Example C01_fragment3_session_run :
+  transform_expr TRANSFORM_FUEL (vm_empty 8192) (cell_of3 ex5_def) = Ok (cell_of3 ex5_def) /\
+  match eval other_builtin 200 (cell_of3 ex5_def) (vm_empty 8192) with
+  | ROk (Done c1) s1 => c1 = CVoid /\
+      transform_expr TRANSFORM_FUEL s1 (cell_of3 ex5_call) = Ok (cell_of3 ex5_call) /\
+      match eval other_builtin 200 (cell_of3 ex5_call) s1 with
+      | ROk (Done c2) s2 => c2 = CSym (S_ "done") /\ sp s2 = 0 /\ bp s2 = 0 /\ ep s2 = USIZE_MAX
+      | _ => False
+      end
+  | _ => False
+  end.
+Proof. vm_compute. repeat split. Qed.
+
 (* The full statement, kept visible.  OPEN.  Proved: the fragment of C01_fragment_correct
-   (constants, quote, if, global variables, global define / set!, builtin application) and its
+   (constants, quote, if, global variables, global define / set!, builtin application), its
    extension C01_fragment2_correct (lambda expressions applied in place with local variables,
-   CALL and TCALL), both up to Vm::eval (C01_eval_fragment, C01_eval_fragment2 and their
-   _done forms).  Not covered: closures capturing variables or escaping as values, `set!` on
-   locals, (define (f x) ...) and calls by name, internal definitions, variadic lambdas,
-   quasiquote, define-syntax, the derived forms of the prelude, builtins with effects other
-   than allocation, and the defect classes below. *)
+   CALL and TCALL) and the extension C01_fragment3_correct (closures as values: lambda
+   expressions in any position capturing variables of enclosing lambdas, application of
+   closures, procedures named by (define f (lambda ...)) and called by name from later
+   expressions, recursion through the global), each up to Vm::eval (C01_eval_fragment,
+   C01_eval_fragment2, C01_eval_fragment3 and their _done forms; C01_done_state_ok for sessions).
+   Not covered: `set!` on local variables (captured or not: the reference semantics of fragment 3
+   captures VALUES, which is adequate only while locals are immutable; a store of locations is
+   needed), the (define (f x ...) body) spelling (same code as (define f (lambda ...)) up to the
+   free-symbol analysis of the define form), internal definitions, bodies of several
+   expressions, variadic lambdas, builtins applied to closures, quasiquote, define-syntax, the
+   derived forms of the prelude, builtins with effects other than allocation, and the defect
+   classes below. *)
 Definition C01_compile_correct_stmt : Prop :=
   forall (reference : list text -> list N) (forms : list text),
     (* for every session of the generator grammar outside the recorded defect classes *)
